@@ -252,6 +252,21 @@ def check_cases(ctx, cases):
         d2 = o2.to_dict()
         if d2 != d:
             ctx.fail(case, f"{name}: to_dict(from_dict(to_dict(o))) differs from to_dict(o)", "dict-not-stable:" + name)
+        # sparse forms: the same dictionary with keys whose value is None left out, at every nesting
+        # level, one at a time and all at once (what compact producers and older encodings send).
+        # Whatever from_dict accepts must decode to the same object, and never touches its argument.
+        for sp in sparse_variants(d):
+            sp_keep = copy.deepcopy(sp)
+            try:
+                o3 = C.from_dict(sp)
+            except (KeyError, TypeError, ValueError, AttributeError):
+                ctx.count("sparse:rejected")
+                continue
+            ctx.count("sparse:accepted")
+            if sp != sp_keep:
+                ctx.fail(dict(case, sparse=repr(sp_keep)[:300]), f"{name}.from_dict modifies the (sparse) dictionary it is given", "from_dict-mutates-argument:sparse:" + name, {"before": repr(sp_keep)[:300], "after": repr(sp)[:300]})
+            if o3 != o:
+                ctx.fail(dict(case, sparse=repr(sp_keep)[:300]), f"{name}: a dictionary without its None-valued keys decodes to a different object", "sparse-dict-differs:" + name)
         reqs.append({"op": "serde_roundtrip", "cls": name, "dict": dv})
         try:
             post.append((case, name, to_val(d2)))
@@ -273,6 +288,41 @@ def check_cases(ctx, cases):
             ctx.disagree(case, f"{name}: toDict(fromDict(d)): model vs implementation", model=canon_val(m["first"]), impl=canon_val(impl))
         elif canon_val(m["second"]) != canon_val(m["first"]):
             ctx.disagree(case, f"{name}: the model's dictionary form is not stable under a second round trip", model=canon_val(m["second"]))
+
+
+# nested dictionaries that are the dictionary form of a model object (everything else — metadata,
+# branches, headers — is user content, where a None value or a missing key means something)
+SUBOBJECT_KEYS = {"author", "committer", "date", "committer_date", "timestamp", "authority", "fetcher"}
+
+
+def none_paths(d, path=()):
+    """paths of the None-valued keys of the object's own dictionary and of its sub-objects'"""
+    if isinstance(d, dict):
+        for k, v in d.items():
+            if v is None:
+                yield path + (k,)
+            elif k in SUBOBJECT_KEYS and isinstance(v, dict):
+                yield from none_paths(v, path + (k,))
+
+
+def without(d, paths):
+    out = copy.deepcopy(d)
+    for p in paths:
+        x = out
+        for k in p[:-1]:
+            x = x[k]
+        x.pop(p[-1], None)
+    return out
+
+
+def sparse_variants(d):
+    ps = list(none_paths(d))
+    if not ps:
+        return []
+    out = [without(d, [p]) for p in ps[:8]]
+    if len(ps) > 1:
+        out.append(without(d, ps))
+    return out
 
 
 def neighbours(ctx, case):
